@@ -88,7 +88,7 @@ def variants(tier):
         v.append({"v": "pattern", "H": 8, "pat": list(bits), "level": "DEBUG"})
     maxdev = 1 if tier == "quick" else 2
     for basebit in (0, 1):
-        for k in range(0, maxdev + 1):
+        for k in range(0, (maxdev if basebit == 0 else 1) + 1):
             for pos in itertools.combinations(range(40), k):
                 if tier == "quick" and k == 1 and pos[0] % 3 != 0:
                     continue
